@@ -9,6 +9,8 @@ so the abstraction is exact.  Nothing of the repository is imported or executed:
 the AST with its own store."""
 import ast
 
+from . import symstr
+from .symstr import SStr, SInt
 from .core import AnalysisError, norm
 
 
@@ -303,6 +305,10 @@ class Interp:
         return None
 
     def truth(self, v):
+        if isinstance(v, SStr):
+            return v.truth()
+        if isinstance(v, SInt):
+            return not symstr.compare_int(v, 'Eq', 0)
         if v is None or v is False or v == 0:
             return False
         if isinstance(v, Ref):
@@ -344,7 +350,10 @@ class Interp:
                 if fn is None:
                     raise AnalysisError('heap model: %s.%s not found' % (base[1], e.attr))
                 return Closure(fn.node, {}, None, fn.cls)
-            if isinstance(base, str) and e.attr in ('endswith', 'startswith', 'strip', 'lstrip', 'rstrip', 'lower', 'upper'):
+            if isinstance(base, SStr):
+                return ('symmethod', base, e.attr)
+            if isinstance(base, str) and e.attr in ('endswith', 'startswith', 'strip', 'lstrip', 'rstrip', 'lower', 'upper', 'join', 'split', 'partition',
+                                                     'format', 'splitlines', 'index', 'find', 'rsplit', 'rpartition', 'replace', 'count'):
                 return ('strmethod', base, e.attr)
             v = h.getattr(base, e.attr, cls)
             if isinstance(v, Closure) and isinstance(v.node, ast.FunctionDef) and any(norm(d) == 'property' for d in v.node.decorator_list):
@@ -354,6 +363,8 @@ class Interp:
             l = self.ev(e.left, env, cls)
             r = self.ev(e.comparators[0], env, cls)
             op = e.ops[0]
+            if isinstance(l, (SStr, SInt)) or isinstance(r, (SStr, SInt)):
+                return self.sym_compare(l, op, r, e)
             if isinstance(op, (ast.Is, ast.IsNot)):
                 same = (l is None and r is None) or (isinstance(l, Ref) and isinstance(r, Ref) and l == r) or (l is r)
                 return same if isinstance(op, ast.Is) else not same
@@ -400,6 +411,17 @@ class Interp:
             l, r = self.ev(e.left, env, cls), self.ev(e.right, env, cls)
             if isinstance(l, int) and isinstance(r, int):
                 return l + r if isinstance(e.op, ast.Add) else l - r
+            if isinstance(e.op, ast.Add) and (isinstance(l, SStr) or isinstance(r, SStr)) and isinstance(l, (SStr, str)) and isinstance(r, (SStr, str)):
+                return symstr.lift(l) + symstr.lift(r)
+            if isinstance(l, str) and isinstance(r, str) and isinstance(e.op, ast.Add):
+                return l + r
+            if isinstance(l, (SInt, int)) and isinstance(r, (SInt, int)):
+                l2 = l if isinstance(l, SInt) else SInt(l)
+                return l2 + r if isinstance(e.op, ast.Add) else l2 - r
+        if isinstance(e, ast.BinOp) and isinstance(e.op, ast.Mod):
+            l, r = self.ev(e.left, env, cls), self.ev(e.right, env, cls)
+            if isinstance(l, str):
+                return self.sym_format_percent(l, r)
         if isinstance(e, ast.Lambda):
             return Closure(e, dict(env), None, cls)
         if isinstance(e, (ast.GeneratorExp, ast.ListComp)) and len(e.generators) == 1:
@@ -414,6 +436,11 @@ class Interp:
         if isinstance(e, ast.Subscript):
             base = self.ev(e.value, env, cls)
             key = self.ev(e.slice, env, cls)
+            if isinstance(base, SStr) or (isinstance(base, str) and isinstance(key, (int, slice))):
+                try:
+                    return symstr.lift(base).subscript(key)
+                except KeyError:
+                    raise Raised('IndexError', h.version, e.lineno)
             if isinstance(base, Ref) and h.objs[base.name]['__class__'] == 'dict':
                 return h.dict_get(base, key, e.lineno)
             if h.is_list(base) or isinstance(base, (list, tuple)):
@@ -441,6 +468,17 @@ class Interp:
             v = self.ev(e.operand, env, cls)
             if isinstance(v, int):
                 return -v
+        if isinstance(e, ast.JoinedStr) and getattr(h, 'symbolic_strings', False):
+            parts = []
+            for v in e.values:
+                if isinstance(v, ast.Constant):
+                    parts.append(v.value)
+                else:
+                    x = self.ev(v.value, env, cls)
+                    if not isinstance(x, (str, SStr)) or v.conversion != -1 or v.format_spec is not None:
+                        raise AnalysisError('heap model: formatted value %s' % norm(v.value))
+                    parts.append(x)
+            return SStr(parts)
         if isinstance(e, ast.JoinedStr):
             return 'text'
         raise AnalysisError('heap model: expression %s' % norm(e)[:60])
@@ -490,6 +528,11 @@ class Interp:
         if isinstance(fn, ast.Name) and fn.id in ('list', 'tuple', 'iter') and len(args) == 1:
             items = self.seq(args[0])
             return h.new_list(items) if fn.id == 'list' else (tuple(items) if fn.id == 'tuple' else items)
+        if isinstance(fn, ast.Name) and fn.id == 'len' and len(args) == 1 and isinstance(args[0], SStr):
+            n = args[0].length()
+            return n.const if not n.terms else n
+        if isinstance(fn, ast.Name) and fn.id == 'str' and len(args) == 1 and isinstance(args[0], (SStr, str)):
+            return args[0]
         if isinstance(fn, ast.Name) and fn.id == 'len' and len(args) == 1 and (h.is_list(args[0]) or isinstance(args[0], (list, tuple))):
             return len(h.items(args[0])) if h.is_list(args[0]) else len(args[0])
         if isinstance(fn, ast.Name) and fn.id == 'enumerate' and len(args) == 1:
@@ -572,9 +615,147 @@ class Interp:
             return h.hooks[f[1]](self, args, kwargs)
         if isinstance(f, tuple) and f and f[0] == 'weak':
             return f[1]
+        if isinstance(f, tuple) and f and f[0] == 'symmethod':
+            return self.sym_method(f[1], f[2], args, kwargs, e)
         if isinstance(f, tuple) and f and f[0] == 'strmethod':
-            return getattr(f[1], f[2])(*args)
+            if any(isinstance(a, SStr) for a in args) or (f[2] == 'join' and args and any(isinstance(x, SStr) for x in self.seq(args[0]))):
+                if f[2] == 'join':
+                    items = self.seq(args[0])
+                    out = []
+                    for i, x in enumerate(items):
+                        if i:
+                            out.append(f[1])
+                        out.append(symstr.lift(x))
+                    return SStr(out)
+                if f[2] == 'format':
+                    return self.sym_format_braces(f[1], args, kwargs)
+                return self.sym_method(symstr.lift(f[1]), f[2], args, kwargs, e)
+            if f[2] == 'join':
+                return f[1].join(self.seq(args[0]))
+            r = getattr(f[1], f[2])(*args, **kwargs)
+            if isinstance(r, list):
+                return h.new_list(r)
+            return r
         raise AnalysisError('heap model: call %s' % norm(e)[:60])
+
+    # -- symbolic strings -------------------------------------------------------------------------------
+    def sym_compare(self, l, op, r, e):
+        name = type(op).__name__
+        if isinstance(l, SInt) or isinstance(r, SInt):
+            if name in ('Eq', 'NotEq', 'Lt', 'LtE', 'Gt', 'GtE') and isinstance(l, (SInt, int)) and isinstance(r, (SInt, int)):
+                return symstr.compare_int(l, name, r)
+            if name in ('Is', 'IsNot') and (l is None or r is None):
+                return name == 'IsNot'
+            raise AnalysisError('heap model: comparison %s' % norm(e))
+        if name in ('Is', 'IsNot'):
+            if l is None or r is None:
+                return name == 'IsNot'
+            raise AnalysisError('heap model: identity of strings %s' % norm(e))
+        if name in ('Eq', 'NotEq'):
+            if not isinstance(l, (SStr, str)) or not isinstance(r, (SStr, str)):
+                return name == 'NotEq'
+            res = symstr.lift(l).equals(r)
+            return res if name == 'Eq' else not res
+        if name in ('In', 'NotIn'):
+            if isinstance(r, (SStr,)):
+                res = r.contains(l)
+            elif isinstance(r, str):
+                res = symstr.lift(l).member_of(r)
+            elif isinstance(r, (tuple, list)) or self.h.is_list(r):
+                res = symstr.lift(l).member_of(list(r) if isinstance(r, (tuple, list)) else list(self.h.items(r)))
+            else:
+                raise AnalysisError('heap model: comparison %s' % norm(e))
+            return res if name == 'In' else not res
+        raise AnalysisError('heap model: comparison %s' % norm(e))
+
+    def sym_method(self, s, meth, args, kwargs, e):
+        h = self.h
+        try:
+            if meth in ('startswith', 'endswith'):
+                a = args[0]
+                if isinstance(a, tuple):
+                    return any(getattr(s, meth)(x) for x in a)
+                return getattr(s, meth)(a)
+            if meth in ('strip', 'lstrip', 'rstrip'):
+                return getattr(s, meth)(*args)
+            if meth in ('lower', 'upper'):
+                return getattr(s, meth)()
+            if meth in ('split', 'rsplit'):
+                sep = args[0] if args else kwargs.get('sep')
+                mx = args[1] if len(args) > 1 else kwargs.get('maxsplit', -1)
+                return h.new_list(getattr(s, meth)(sep, mx))
+            if meth == 'splitlines':
+                keep = bool(args[0]) if args else bool(kwargs.get('keepends', False))
+                return h.new_list(s.splitlines(keep))
+            if meth in ('partition', 'rpartition'):
+                return getattr(s, meth)(args[0])
+            if meth in ('find', 'index', 'count'):
+                r = getattr(s, meth)(args[0])
+                return r.const if isinstance(r, SInt) and not r.terms else r
+            if meth == 'join':
+                items = self.seq(args[0])
+                out = []
+                for i, x in enumerate(items):
+                    if i:
+                        out.append(s)
+                    out.append(symstr.lift(x))
+                return SStr(out)
+            if meth in ('encode', 'decode'):
+                return s
+            if meth == 'format':
+                c = s.concrete()
+                if c is not None:
+                    return self.sym_format_braces(c, args, kwargs)
+        except KeyError as k:
+            raise Raised(k.args[0], h.version, getattr(e, 'lineno', 0))
+        raise symstr.Undecided('string method %s on %r' % (meth, s))
+
+    def sym_format_percent(self, fmt, arg):
+        vals = list(arg) if isinstance(arg, tuple) else [arg]
+        import re as _re
+        pieces = _re.split(r'(%s|%%)', fmt)
+        out = []
+        for p in pieces:
+            if p == '%s':
+                if not vals:
+                    raise AnalysisError('heap model: not enough arguments for format string')
+                v = vals.pop(0)
+                if not isinstance(v, (str, SStr)):
+                    raise AnalysisError('heap model: %%s of a non-string')
+                out.append(v)
+            elif p == '%%':
+                out.append('%')
+            else:
+                if '%' in p:
+                    raise AnalysisError('heap model: format directive in %r' % fmt)
+                out.append(p)
+        r = SStr(out)
+        c = r.concrete()
+        return c if c is not None else r
+
+    def sym_format_braces(self, fmt, args, kwargs):
+        import string as _string
+        out = []
+        auto = 0
+        for lit, field, spec, conv in _string.Formatter().parse(fmt):
+            out.append(lit)
+            if field is None:
+                continue
+            if spec or conv:
+                raise AnalysisError('heap model: format spec in %r' % fmt)
+            if field == '':
+                v = args[auto]
+                auto += 1
+            elif field.isdigit():
+                v = args[int(field)]
+            else:
+                v = kwargs[field]
+            if not isinstance(v, (str, SStr)):
+                raise AnalysisError('heap model: format of a non-string')
+            out.append(v)
+        r = SStr(out)
+        c = r.concrete()
+        return c if c is not None else r
 
     def exec(self, st, env, cls):
         h = self.h
@@ -601,6 +782,9 @@ class Interp:
         if isinstance(st, ast.AugAssign):
             cur = self.ev(st.target, env, cls)
             d = self.ev(st.value, env, cls)
+            if isinstance(st.op, ast.Add) and isinstance(cur, (str, SStr)) and isinstance(d, (str, SStr)):
+                self.assign(st.target, symstr.lift(cur) + symstr.lift(d) if (isinstance(cur, SStr) or isinstance(d, SStr)) else cur + d, env, cls)
+                return None
             if not (isinstance(cur, int) and isinstance(d, int) and isinstance(st.op, (ast.Add, ast.Sub))):
                 raise AnalysisError('heap model: augmented assignment %s' % norm(st))
             self.assign(st.target, cur + d if isinstance(st.op, ast.Add) else cur - d, env, cls)
